@@ -33,6 +33,55 @@ let rec show_ftok b (t : ftok) =
       List.iter (show_ftok b) ts;
       Buffer.add_string b ") "
 
+(* ---- cursor protocol ---- *)
+let str_of_word w = if w = "-" then [] else List.map (fun x -> n_of_int (int_of_string x)) (String.split_on_char '.' w)
+let rec parse_toks (ws : string list) : tok list * string list =
+  match ws with
+  | [] -> ([], [])
+  | ")" :: rest -> ([], ")" :: rest)
+  | "|" :: rest -> ([], "|" :: rest)
+  | w :: rest when w = "P(" || w = "S(" ->
+      let (ch, rest1) = parse_toks rest in
+      let rest2 = (match rest1 with ")" :: r -> r | _ -> failwith "unbalanced") in
+      let (more, rest3) = parse_toks rest2 in
+      (Group ((if w = "P(" then KPar else KSlice), ch) :: more, rest3)
+  | w :: rest ->
+      (match String.split_on_char ':' w with
+       | ["L"; m; s] -> let (more, rest1) = parse_toks rest in (Leaf (str_of_word s, n_of_int (int_of_string m)) :: more, rest1)
+       | _ -> failwith ("bad token " ^ w))
+let pat_of w = match String.split_on_char ':' w with
+  | ["s"; s] -> PStr (str_of_word s) | ["m"; m] -> PMark (n_of_int (int_of_string m)) | _ -> failwith ("bad pat " ^ w)
+let op_of (ws : string list) : cop =
+  match ws with
+  | ["go"; k] -> OGetOffset (nat_of_int (int_of_string k)) | ["gn"; k] -> OGetOffsetOrNull (nat_of_int (int_of_string k))
+  | ["g"] -> OGetOrNull | ["pop"] -> OPop | ["mv"; k] -> OMove (nat_of_int (int_of_string k)) | ["close"] -> OClose
+  | ["fin"] -> OIsFinish | ["src"] -> OGetSource | ["psrc"] -> OPopSource | ["ch"] -> OGetChildren | ["pch"] -> OPopChildren
+  | "s" :: ps -> OSearch (List.map pat_of ps) | "S" :: ps -> OSearchMove (List.map pat_of ps) | "m" :: ps -> OMatch (List.map pat_of ps)
+  | ["sm"; m] -> OSearchMark (n_of_int (int_of_string m))
+  | ["ss"; s] -> OSearchStr (str_of_word s) | ["su"; s] -> OSearchUpper (str_of_word s)
+  | ["su2"; a; b] -> OSearchUpper2 (str_of_word a, str_of_word b) | ["su3"; a; b; c] -> OSearchUpper3 (str_of_word a, str_of_word b, str_of_word c)
+  | "sset" :: l -> OSearchSet (List.map str_of_word l) | "ssetu" :: l -> OSearchSetUpper (List.map str_of_word l)
+  | ["Ss"; s] -> OSearchMoveStr (str_of_word s) | ["Su"; s] -> OSearchMoveUpper (str_of_word s)
+  | ["Su2"; a; b] -> OSearchMoveUpper2 (str_of_word a, str_of_word b) | ["Su3"; a; b; c] -> OSearchMoveUpper3 (str_of_word a, str_of_word b, str_of_word c)
+  | "Sset" :: l -> OSearchMoveSet (List.map str_of_word l) | "Ssetu" :: l -> OSearchMoveSetUpper (List.map str_of_word l)
+  | ["split"; s] -> OPopSplit (str_of_word s)
+  | _ -> failwith ("bad op " ^ String.concat " " ws)
+let rec split_ops (ws : string list) (cur : string list) : string list list =
+  match ws with
+  | [] -> if cur = [] then [] else [List.rev cur]
+  | ";" :: rest -> (List.rev cur) :: split_ops rest []
+  | w :: rest -> split_ops rest (w :: cur)
+let show_toks ts = let b = Buffer.create 64 in List.iter (show_tok b) ts; String.trim (Buffer.contents b)
+let show_out (o : cout) : string =
+  match o with
+  | CErr e -> "E:" ^ err_name e
+  | COk VUnit -> "U"
+  | COk (VBool true) -> "T" | COk (VBool false) -> "F"
+  | COk (VTok None) -> "tok[none]" | COk (VTok (Some t)) -> "tok[" ^ show_toks [t] ^ "]"
+  | COk (VStr None) -> "str[none]" | COk (VStr (Some s)) -> "str[" ^ cps s ^ "]"
+  | COk (VScanner ts) -> "sc[" ^ show_toks ts ^ "]"
+  | COk (VScanners l) -> "scs[" ^ String.concat "|" (List.map show_toks l) ^ "]"
+
 let ints_of words = List.map (fun w -> n_of_int (int_of_string w)) words
 
 let handle (line : string) : string =
@@ -56,6 +105,21 @@ let handle (line : string) : string =
       let ds = devs_paths (nat_of_int (int_of_string flags)) in
       String.concat " " (List.map (fun (((s, t), i), path) ->
         Printf.sprintf "%d:%s%s" (int_of_n (dev_family ((s, t), i))) (cps path) (match i with None -> "$" | Some _ -> "")) ds)
+  | "CLASSIFYMB" :: flags :: rest ->
+      string_of_int (int_of_n (classify_input_mb (nat_of_int (int_of_string flags)) (ints_of rest)))
+  | "DEVSMB" :: flags :: [] ->
+      let ds = devs_mb_paths (nat_of_int (int_of_string flags)) in
+      String.concat " " (List.map (fun (((s, t), i), path) ->
+        Printf.sprintf "%d:%s%s" (int_of_n (dev_family ((s, t), i))) (cps path) (match i with None -> "$" | Some _ -> "")) ds)
+  | "HASPH" :: rest -> if has_ph_open false (ints_of rest) then "1" else "0"
+  | "CURSOR" :: rest ->
+      (try
+         let (toks, rest1) = parse_toks rest in
+         let opws = (match rest1 with "|" :: r -> r | _ -> failwith "no ops") in
+         let ops = List.map op_of (List.filter (fun l -> l <> []) (split_ops opws [])) in
+         let (tr, _) = run_ops { elems = toks; pos = O } ops in
+         String.concat " ; " (List.map (fun (p, o) -> Printf.sprintf "%d=%s" (int_of_nat p) (show_out o)) tr)
+       with Failure m -> "BAD-REQUEST " ^ m)
   | _ -> "BAD-REQUEST"
 
 let () =
